@@ -6,18 +6,20 @@ STATUSES = ["exists", "inprogress", "xfail", "uxsuccess", "success", "fail", "sk
 
 
 def probe():
+    """which status words make the callback fire; a word on which status() raises counts as not firing (the
+    correspondence of C11 then reports the raise itself)"""
     from testtools.testresult.real import StreamFailFast
-    fired = []
     hits = []
     ff = StreamFailFast(lambda: hits.append(1))
-    for k, word in enumerate(STATUSES):
+
+    def fires(word):
         del hits[:]
-        ff.status(test_id="probe", test_status=word)
-        if hits:
-            fired.append(k)
-    del hits[:]
-    ff.status(test_id="probe", test_status=None)
-    return fired, bool(hits)
+        try:
+            ff.status(test_id="probe", test_status=word)
+        except Exception:
+            return False
+        return bool(hits)
+    return [k for k, word in enumerate(STATUSES) if fires(word)], fires(None)
 
 
 def render():
